@@ -64,8 +64,11 @@ CLAIMS["C14"] = dict(technique="Lean 4 proof of the admission decision stated ou
 CLAIMS["C15"] = dict(technique="Lean 4 proof over every interleaving of a small-step model of writers / write pump / cleanup (invariant by induction over labels; termination measure + deadlock freedom); the pre-fix code's deadlock as a theorem; sequential differential on real client<->server sockets; concurrent monitor with dead-peer scenarios",
     text="Proved for any number of concurrent writers and every schedule: no send on a closed channel (no panic); what reaches the network is a prefix of what Write accepted, in acceptance order, once each; while open nothing accepted is lost; a Write after cleanup returns an error; every step decreases a measure and whenever a Write has not returned some step is enabled, so every Write returns (never blocks forever). The same model without the closing channel deadlocks (theorem old_code_deadlocks): that defect was reproduced on the real code (graceful close racing 3+ writers; dead peer) and repaired (3faee00). Content fidelity for sizes up to 300 KiB and multi-byte UTF-8 is checked with hashes by the monitor (A-NET), not proved.",
     note=BASE_NOTE + "Below the sequential schedule the model is tied to the source by fingerprints and the concurrent monitor only; gorilla/TCP are trusted.", **_D)
+CLAIMS["C17"] = dict(technique="Lean 4 invariant proof over every history of the websocket-client model (stop/start cycles, server availability), closed-form lemmas for loss / retry / stop, pure arithmetic for the back-off recursion and the read-deadline keep-alive, decision logic for which side keeps which deadline alive; differential on the real client against a scriptable raw server and on real client<->server pairs for all ping/pong configurations",
+    text="Proved for every history: the abort token never survives a Start, so a connection lost without Stop always notifies the disconnected handler and then reconnects (reconnected handler after it) or enters the retry loop, which only a successful connect or Stop ends; any number of failed attempts keeps it alive; after Stop nothing reconnects and no handler fires until a new Start; Stop is idempotent up to the token. Back-off: monotone, min*2^k <= delay_k <= (min+2*range)*2^k - range while doubling, constant afterwards. Keep-alive: getReadTimeout's preference chain; frames at most `wait` apart never time out; pongs within p+l<=wait keep the connection for any number of pings; a time-out happens exactly `wait` after the last timely frame; which side survives for every configuration. Three defects found by this check were repaired (58ca140 panic on closed error channel after restart, ac0ba11 stale token after restart, cd70867 double Stop re-enables reconnection).",
+    note=BASE_NOTE + "Real time, read deadlines and TCP are assumptions (A-TIME, A-NET); races of Stop against a teardown in progress are searched by c16_stop, not proved.", **_D)
 CLAIMS["C16"] = dict(technique="Lean 4 proofs on the quiescent models (restart_fresh as a state equality, stop_is_silent, always_alive) + differential suites with stop/start at random points",
-    text="Proved: in every reachable state Stop returns, drops queue and outstanding request silently, afterwards sends are refused and replies/timers discarded; Stop then Start yields a state equal to a freshly started endpoint. Three defects found by this check were repaired (094ff1f, 68f3322, b4d2189). Partial: the websocket layer's reconnect token (S2) and Stop racing sends below quiescence (S12) are not covered by theorems.",
+    text="Proved: in every reachable state Stop returns, drops queue and outstanding request silently, afterwards sends are refused and replies/timers discarded; Stop then Start yields a state equal to a freshly started endpoint. Three defects found by this check were repaired (094ff1f, 68f3322, b4d2189). The websocket client's Stop / restart behaviour is proved in C17's model (no reconnection after Stop, restart reconnects like a fresh client; fixes 58ca140, ac0ba11, cd70867) and exercised here by suite wscli; monitor c16_stop searches Stop with more clients than the dispatcher's channel capacity and Stop racing a teardown in progress. Partial: Stop racing sends below quiescence (S12) is not covered by theorems.",
     note=DISP_NOTE, **_D)
 
 NOT_YET = {}
